@@ -1,9 +1,10 @@
 (* C19 semantic read-back: associations are read back as the specification says (goal_assoc of Proofs/UmlSemGoals.v):
-   Association.ParseAssociation on the dictionary of a semantic association blob (two ends, in the order of the layout)
-   gives rassoc_of. *)
+   Association.ParseAssociation on the dictionary of a semantic association blob (two ends, in the order of the layout,
+   any inert properties and inert owned elements around them) gives rassoc_of. *)
 From Coq Require Import String Ascii List Bool Arith Lia.
 From KV Require Import Lib.Str Lib.ODict Model.Vpp Model.VppWriter Model.Uml Model.UmlBlob Model.UmlWriter Model.UmlSem
-                       Proofs.UmlBlobDefs Proofs.UmlBlobStruct Proofs.UmlSemDefs Proofs.UmlSemDict Proofs.UmlSemGoals.
+                       Proofs.UmlBlobDefs Proofs.UmlBlobStruct Proofs.UmlBlobText Proofs.UmlSemDefs Proofs.UmlSemDict Proofs.UmlSemDoc
+                       Proofs.UmlSemGoals.
 Import ListNotations.  Open Scope string_scope.
 
 (* ---------------------------------------------------------------- booleans, strings *)
@@ -263,7 +264,7 @@ Qed.
 (* ---------------------------------------------------------------- layouts *)
 
 Definition x_noise_ok (l : list slot) : bool :=
-  forallb (fun s => match s with SNoise k v => noise_key k && noise_val v | STag _ => true end) l.
+  forallb (fun s => match s with SNoise k v => noise_key k && noise_val v | _ => true end) l.
 
 Lemma x_layout_parts : forall f l, layout_ok f l = true ->
   nodup_tags l [] = true /\ nodups (entry_keys (items_of "" f l)) = true
@@ -285,17 +286,6 @@ Proof.
   apply andb_true_iff in H. exact H.
 Qed.
 
-Lemma x_items_simple : forall ws f l,
-  x_noise_ok l = true -> (forall t it, f t = Some it -> item_simple it = true) -> forallb item_simple (items_of ws f l) = true.
-Proof.
-  intros ws f l. induction l as [|s r IH]; intros Hn Hf; [reflexivity|].
-  rewrite items_of_cons, forallb_app. unfold x_noise_ok in Hn. cbn [forallb] in Hn. apply andb_true_iff in Hn. destruct Hn as [Hs Hr].
-  rewrite (IH Hr Hf), andb_true_r. destruct s as [k v|t].
-  - apply andb_true_iff in Hs. destruct Hs as [_ Hv]. cbn [forallb item_simple].
-    pose proof (x_noise_val_kept v Hv) as Hk. unfold x_kept in Hk. rewrite Hk. reflexivity.
-  - destruct (f t) as [it|] eqn:E; [|reflexivity]. cbn [forallb]. rewrite (Hf t it E). reflexivity.
-Qed.
-
 Lemma x_noise_not_reserved : forall kn k, noise_key kn = true -> existsb (String.eqb k) reserved_keys = true -> kn <> k.
 Proof.
   intros kn k H Hk E. subst kn. unfold noise_key in H. x_split.
@@ -309,30 +299,38 @@ Proof.
   unfold is_child_key. apply negb_true_iff. assumption.
 Qed.
 
-(* the lookup of a key of the adaptor in the entries of a layout: what the one tag that writes it wrote *)
-Lemma x_lookup : forall ws f l k t0, layout_ok f l = true -> existsb (String.eqb k) reserved_keys = true ->
+(* the lookup of a key of the adaptor in the body dictionary of a layout: what the one tag that writes it wrote
+   (noise keys are not reserved, inert keys are none of the keys of the kind, owned elements have the keys child_<n>) *)
+Lemma x_lookup : forall K ws f l k t0 vals, layout_ok f l = true -> inerts_ok K l = true ->
+  existsb (String.eqb k) reserved_keys = true -> existsb (String.eqb k) (kind_keys K) = true -> prefixb "child_" k = false ->
   (forall t, t <> t0 -> lookup String.eqb k (tag_entries f t) = None) ->
-  lookup String.eqb k (entries (items_of ws f l)) = lookup String.eqb k (tag_entries f t0).
+  lookup String.eqb k (entries (items_of ws f l) ++ numbered vals 0)%list = lookup String.eqb k (tag_entries f t0).
 Proof.
-  intros ws f l k t0 H Hk Ho. destruct (x_layout_parts f l H) as [_ [_ [_ [H4 H5]]]].
-  rewrite lookup_drop_noise.
-  - rewrite (lookup_single_tag f (tags_of l) k t0 Ho), <- has_tag_tags_of.
-    unfold tag_entries at 2. destruct (f t0) as [it|] eqn:E.
-    + rewrite (H5 t0 it E). unfold tag_entries. rewrite E. reflexivity.
-    + destruct (has_tag t0 l); [unfold tag_entries; rewrite E|]; reflexivity.
-  - intros kn vn Hin. destruct (x_noise_in l kn vn H4 Hin) as [Hkn _].
-    apply x_noise_not_reserved; assumption.
+  intros K ws f l k t0 vals H Hi Hk Hkk Hp Ho. destruct (x_layout_parts f l H) as [_ [_ [_ [H4 H5]]]].
+  rewrite lookup_app, (lookup_numbered_none k vals 0 Hp).
+  assert (E : lookup String.eqb k (entries (items_of ws f l)) = lookup String.eqb k (tag_entries f t0)).
+  { rewrite lookup_drop_noise.
+    - rewrite (lookup_single_tag f (tags_of l) k t0 Ho), <- has_tag_tags_of.
+      unfold tag_entries at 2. destruct (f t0) as [it|] eqn:E.
+      + rewrite (H5 t0 it E). unfold tag_entries. rewrite E. reflexivity.
+      + destruct (has_tag t0 l); [unfold tag_entries; rewrite E|]; reflexivity.
+    - intros s Hin. destruct s as [kn vn|t|it].
+      + destruct (x_noise_in l kn vn H4 Hin) as [Hkn _]. apply x_noise_not_reserved; assumption.
+      + exact I.
+      + intro Hin2. destruct (inert_key_free K l it k Hi Hin Hin2) as [Hf _]. rewrite Hf in Hkk. discriminate Hkk. }
+  rewrite E. destruct (lookup String.eqb k (tag_entries f t0)); reflexivity.
 Qed.
 
 Lemma x_nodup_seen : forall l seen t, nodup_tags l seen = true -> existsb (tag_eqb t) seen = true -> has_tag t l = false.
 Proof.
   induction l as [|s r IH]; intros seen t H Hs; [reflexivity|].
-  destruct s as [k v|y].
+  destruct s as [k v|y|it].
   - cbn [nodup_tags] in H. unfold has_tag. cbn [existsb orb]. apply (IH seen t H Hs).
   - cbn [nodup_tags] in H. x_split. unfold has_tag. cbn [existsb]. apply orb_false_iff. split.
     + destruct (tag_eqb y t) eqn:E; [|reflexivity]. apply tag_eqb_eq in E. subst y.
       match goal with H : negb _ = true |- _ => rewrite Hs in H; discriminate H end.
     + apply (IH (y :: seen) t); [assumption|]. cbn [existsb]. rewrite Hs. apply orb_true_r.
+  - cbn [nodup_tags] in H. unfold has_tag. cbn [existsb orb]. apply (IH seen t H Hs).
 Qed.
 
 Lemma x_has_tag_cons : forall t s r, has_tag t (s :: r) = (match s with STag y => tag_eqb y t | _ => false end) || has_tag t r.
@@ -344,46 +342,23 @@ Definition x_flag (k : string) (b : bool) : list (string * UmlBlob.pv) := if b t
 Definition x_ref (k : string) (ids : list string) : list (string * UmlBlob.pv) :=
   match ids with [] => [] | _ => [(k ++ "_0", PStr (path_text ids))] end.
 
-Lemma x_text_entries : forall ws k v, match text_field ws k v with Some it => item_entries it | None => [] end = x_text k v.
-Proof. intros. unfold text_field, x_text. destruct (String.eqb v ""); [reflexivity|]. cbn [item_entries]. rewrite x_unq_q. reflexivity. Qed.
+Lemma x_text_entries : forall ws k v, vtxt v = true ->
+  match text_field ws k v with Some it => item_entries it | None => [] end = x_text k v.
+Proof.
+  intros ws k v Hv. unfold text_field, x_text. destruct (String.eqb v "") eqn:E; [reflexivity|]. cbn [item_entries]. rewrite x_unq_q.
+  pose proof (x_vtxt_kept v Hv E) as Hk. unfold x_kept in Hk. apply negb_true_iff in Hk. rewrite Hk. reflexivity.
+Qed.
 Lemma x_flag_entries : forall ws k b, match flag_field ws k b with Some it => item_entries it | None => [] end = x_flag k b.
 Proof. intros. unfold flag_field, x_flag. destruct b; reflexivity. Qed.
 Lemma x_ref_entries : forall ws k ids, match ref_field ws k ids with Some it => item_entries it | None => [] end = x_ref k ids.
 Proof. intros. unfold ref_field, x_ref. destruct ids; reflexivity. Qed.
+Lemma x_code_entry : forall ws k c, code_ok (Some c) = true -> item_entries (IField ws k c) = [(k, PStr (unq c))].
+Proof.
+  intros ws k c H. destruct (x_code_kept c H) as [Hu Hk]. cbn [item_entries]. rewrite Hu.
+  unfold x_kept in Hk. apply negb_true_iff in Hk. rewrite Hk. reflexivity.
+Qed.
 
 (* ---------------------------------------------------------------- the body dictionary of an association end *)
-
-Definition x_flat (it : witem) : bool :=
-  match it with IField _ _ v => x_kept (unq v) | IRefs _ _ _ _ _ _ => true | _ => false end.
-
-Lemma x_items_flat : forall ws f l,
-  (forall t it, f t = Some it -> x_flat it = true) -> x_noise_ok l = true -> forallb x_flat (items_of ws f l) = true.
-Proof.
-  intros ws f l Hf. induction l as [|s r IH]; intro H; [reflexivity|].
-  unfold x_noise_ok in H. cbn [forallb] in H. apply andb_true_iff in H. destruct H as [Hs Hr].
-  rewrite items_of_cons, forallb_app, (IH Hr). rewrite andb_true_r.
-  destruct s as [k v|t].
-  - cbn [forallb x_flat]. x_split. rewrite x_noise_val_kept by assumption. reflexivity.
-  - destruct (f t) as [it|] eqn:E; [|reflexivity]. cbn [forallb]. rewrite (Hf t it E). reflexivity.
-Qed.
-
-Lemma x_flat_simple : forall its, forallb x_flat its = true -> forallb item_simple its = true /\ children_of its = [].
-Proof.
-  induction its as [|it r IH]; intro H; [split; reflexivity|].
-  cbn [forallb] in H. x_split. destruct (IH ltac:(assumption)) as [I1 I2].
-  unfold children_of in *. cbn [forallb flat_map]. rewrite I1, I2.
-  destruct it; try discriminate; split; try reflexivity.
-  cbn [x_flat item_simple] in *. unfold x_kept in *. rewrite andb_true_r. assumption.
-Qed.
-
-Lemma x_body : forall ws f l, layout_ok f l = true -> (forall t it, f t = Some it -> x_flat it = true) ->
-  body_pv (items_of ws f l) = PDict (entries (items_of ws f l)).
-Proof.
-  intros ws f l H Hf. destruct (x_layout_parts f l H) as [_ [H2 [H3 [H4 _]]]].
-  destruct (x_flat_simple _ (x_items_flat ws f l Hf H4)) as [S1 S2].
-  rewrite body_explicit; [|exact S1|rewrite entry_keys_ws; exact H2|rewrite entry_keys_ws; exact H3].
-  rewrite S2. cbn [map numbered]. rewrite app_nil_r. reflexivity.
-Qed.
 
 Definition x_end_entries (from : bool) (e : send) (t : tag) : list (string * UmlBlob.pv) :=
   match t with
@@ -398,49 +373,30 @@ Definition x_end_entries (from : bool) (e : send) (t : tag) : list (string * Uml
   | _ => []
   end.
 
-Lemma x_end_tag : forall from e t, tag_entries (end_item from e) t = x_end_entries from e t.
+Lemma x_end_tag : forall S from e t, end_ok S from e = true -> tag_entries (end_item from e) t = x_end_entries from e t.
 Proof.
-  intros from e t. unfold tag_entries.
-  destruct t; cbn [end_item x_end_entries]; rewrite ?x_text_entries, ?x_flag_entries, ?x_ref_entries; try reflexivity.
-  - destruct (se_vis e); reflexivity.
+  intros S from e t H. unfold end_ok in H. x_split. unfold tag_entries.
+  destruct t; cbn [end_item x_end_entries]; rewrite ?x_flag_entries, ?x_ref_entries; try reflexivity.
+  - destruct (se_vis e) as [c|]; [|reflexivity]. apply x_code_entry. assumption.
   - destruct from; reflexivity.
-  - destruct (se_agg e); reflexivity.
+  - apply x_text_entries. assumption.
+  - destruct (se_agg e) as [c|]; [|reflexivity]. apply x_code_entry. assumption.
 Qed.
 
-Lemma x_text_flat : forall ws k v it, vtxt v = true -> text_field ws k v = Some it -> x_flat it = true.
-Proof.
-  intros ws k v it Hv H. unfold text_field in H. destruct (String.eqb v "") eqn:E; [discriminate|].
-  injection H as H. subst it. cbn [x_flat]. rewrite x_unq_q. apply x_vtxt_kept; assumption.
-Qed.
-Lemma x_flag_flat : forall ws k b it, flag_field ws k b = Some it -> x_flat it = true.
-Proof. intros ws k b it H. unfold flag_field in H. destruct b; [|discriminate]. injection H as H. subst it. reflexivity. Qed.
-Lemma x_ref_flat : forall ws k ids it, ref_field ws k ids = Some it -> x_flat it = true.
-Proof. intros ws k ids it H. unfold ref_field in H. destruct ids; [discriminate|]. injection H as H. subst it. reflexivity. Qed.
-
-Lemma x_end_flat : forall S from e, end_ok S from e = true -> forall t it, end_item from e t = Some it -> x_flat it = true.
-Proof.
-  intros S from e H t it Hi. unfold end_ok in H. x_split.
-  destruct t; cbn [end_item] in Hi; try discriminate Hi;
-    try (eapply x_text_flat; [|eassumption]; assumption); try (eapply x_flag_flat; eassumption); try (eapply x_ref_flat; eassumption).
-  - destruct (se_vis e) as [c|]; [|discriminate]. injection Hi as Hi. subst it.
-    destruct (x_code_kept c ltac:(assumption)) as [Hu Hk]. cbn [x_flat]. rewrite Hu. exact Hk.
-  - injection Hi as Hi. subst it. destruct from; reflexivity.
-  - destruct (se_agg e) as [c|]; [|discriminate]. injection Hi as Hi. subst it.
-    destruct (x_code_kept c ltac:(assumption)) as [Hu Hk]. cbn [x_flat]. rewrite Hu. exact Hk.
-Qed.
-
-Ltac x_end_other :=
+Ltac x_end_other S Hok :=
   let t := fresh "t" in let Ht := fresh "Ht" in
-  intros t Ht; rewrite x_end_tag; destruct t; try (exfalso; apply Ht; reflexivity);
+  intros t Ht; rewrite (x_end_tag S _ _ _ Hok); destruct t; try (exfalso; apply Ht; reflexivity);
   cbn [x_end_entries]; unfold x_text, x_flag, x_ref; try reflexivity;
   repeat match goal with |- context [match ?y with _ => _ end] => destruct y end; reflexivity.
 
-Lemma x_end_lookup : forall S from e k t0, end_ok S from e = true -> existsb (String.eqb k) reserved_keys = true ->
+Lemma x_end_lookup : forall S from e k t0 vals, end_ok S from e = true ->
+  existsb (String.eqb k) reserved_keys = true -> existsb (String.eqb k) (kind_keys KEnd) = true -> prefixb "child_" k = false ->
   (forall t, t <> t0 -> lookup String.eqb k (tag_entries (end_item from e) t) = None) ->
-  lookup String.eqb k (entries (items_of (tabs 2) (end_item from e) (se_layout e))) = lookup String.eqb k (x_end_entries from e t0).
+  lookup String.eqb k (entries (items_of (tabsn (se_nl e) 2) (end_item from e) (se_layout e)) ++ numbered vals 0)%list
+  = lookup String.eqb k (x_end_entries from e t0).
 Proof.
-  intros S from e k t0 H Hk Ho. rewrite <- x_end_tag. apply x_lookup; [|exact Hk|exact Ho].
-  unfold end_ok in H. x_split. assumption.
+  intros S from e k t0 vals H Hk Hkk Hp Ho. rewrite <- (x_end_tag S from e t0 H).
+  unfold end_ok in H. x_split. apply (x_lookup KEnd); assumption.
 Qed.
 
 (* ---------------------------------------------------------------- one end: the reader's steps and the specification's *)
@@ -510,30 +466,33 @@ Proof.
   cbn [lookup]. rewrite String.eqb_refl. reflexivity.
 Qed.
 
-(* THE END STEP: the property dictionary of an end, read by assoc_end_step and then by the readOnly test *)
+(* THE END STEP: the property dictionary of an end (with any inert properties and inert owned elements), read by
+   assoc_end_step and then by the readOnly test *)
 Lemma x_end_body_step : forall S g from e a, g_names S g -> end_ok S from e = true ->
-  (a1 <- assoc_end_step g a (body_pv (items_of (tabs 2) (end_item from e) (se_layout e))) ;;
-   assoc_readonly a1 (body_pv (items_of (tabs 2) (end_item from e) (se_layout e)))) = Some (end_spec S from e a).
+  (a1 <- assoc_end_step g a (body_pv (items_of (tabsn (se_nl e) 2) (end_item from e) (se_layout e))) ;;
+   assoc_readonly a1 (body_pv (items_of (tabsn (se_nl e) 2) (end_item from e) (se_layout e)))) = Some (end_spec S from e a).
 Proof.
   intros S g from e a Hg Hok. pose proof Hok as Hok'. unfold end_ok in Hok'. x_split.
-  rewrite (x_body _ _ _ ltac:(eassumption) (x_end_flat S from e Hok)).
-  remember (entries (items_of (tabs 2) (end_item from e) (se_layout e))) as E eqn:HE.
+  destruct (x_layout_parts _ _ ltac:(eassumption)) as [_ [L2 [L3 _]]].
+  rewrite body_explicit by (rewrite entry_keys_ws; assumption).
+  remember (entries (items_of (tabsn (se_nl e) 2) (end_item from e) (se_layout e))
+            ++ numbered (map node_pv (children_of (items_of (tabsn (se_nl e) 2) (end_item from e) (se_layout e)))) 0)%list as E eqn:HE.
   assert (Ldir : lookup String.eqb "Direction" E = lookup String.eqb "Direction" (x_end_entries from e TDir))
-    by (subst E; apply (x_end_lookup S); [exact Hok | reflexivity | x_end_other]).
+    by (subst E; apply (x_end_lookup S); [exact Hok | reflexivity | reflexivity | reflexivity | x_end_other S Hok]).
   assert (Lty : lookup String.eqb "EndModelElement_0" E = lookup String.eqb "EndModelElement_0" (x_end_entries from e TType))
-    by (subst E; apply (x_end_lookup S); [exact Hok | reflexivity | x_end_other]).
+    by (subst E; apply (x_end_lookup S); [exact Hok | reflexivity | reflexivity | reflexivity | x_end_other S Hok]).
   assert (Lagg : lookup String.eqb "aggregationKind" E = lookup String.eqb "aggregationKind" (x_end_entries from e TAgg))
-    by (subst E; apply (x_end_lookup S); [exact Hok | reflexivity | x_end_other]).
+    by (subst E; apply (x_end_lookup S); [exact Hok | reflexivity | reflexivity | reflexivity | x_end_other S Hok]).
   assert (Lmu : lookup String.eqb "multiplicity" E = lookup String.eqb "multiplicity" (x_end_entries from e TMult))
-    by (subst E; apply (x_end_lookup S); [exact Hok | reflexivity | x_end_other]).
+    by (subst E; apply (x_end_lookup S); [exact Hok | reflexivity | reflexivity | reflexivity | x_end_other S Hok]).
   assert (Lvis : lookup String.eqb "visibility" E = lookup String.eqb "visibility" (x_end_entries from e TVis))
-    by (subst E; apply (x_end_lookup S); [exact Hok | reflexivity | x_end_other]).
+    by (subst E; apply (x_end_lookup S); [exact Hok | reflexivity | reflexivity | reflexivity | x_end_other S Hok]).
   assert (Lget : lookup String.eqb "providePropertyGetterMethod" E = lookup String.eqb "providePropertyGetterMethod" (x_end_entries from e TGetter))
-    by (subst E; apply (x_end_lookup S); [exact Hok | reflexivity | x_end_other]).
+    by (subst E; apply (x_end_lookup S); [exact Hok | reflexivity | reflexivity | reflexivity | x_end_other S Hok]).
   assert (Lset : lookup String.eqb "providePropertySetterMethod" E = lookup String.eqb "providePropertySetterMethod" (x_end_entries from e TSetter))
-    by (subst E; apply (x_end_lookup S); [exact Hok | reflexivity | x_end_other]).
+    by (subst E; apply (x_end_lookup S); [exact Hok | reflexivity | reflexivity | reflexivity | x_end_other S Hok]).
   assert (Lro : lookup String.eqb "readOnly" E = lookup String.eqb "readOnly" (x_end_entries from e TReadOnly))
-    by (subst E; apply (x_end_lookup S); [exact Hok | reflexivity | x_end_other]).
+    by (subst E; apply (x_end_lookup S); [exact Hok | reflexivity | reflexivity | reflexivity | x_end_other S Hok]).
   clear HE. cbn [x_end_entries] in *.
   assert (D0 : dir_is "0" (PDict E) = Some from) by (unfold dir_is, idx; rewrite Ldir; destruct from; reflexivity).
   assert (D1 : dir_is "1" (PDict E) = Some (negb from)) by (unfold dir_is, idx; rewrite Ldir; destruct from; reflexivity).
@@ -610,6 +569,9 @@ Qed.
 Lemma x_head_type : forall a b c d, sidx "type" (PDict [("id", a); ("name", b); ("type", PStr c); ("child_0", d)]) = Some c.
 Proof. reflexivity. Qed.
 
+Lemma x_child_key : forall s, is_child_key ("child_" ++ s) = true.
+Proof. intro s. reflexivity. Qed.
+
 (* the wrapper of an end (a numbered child of the association body) *)
 Lemma x_wrapper : forall S g from e a k, g_names S g -> end_ok S from e = true -> is_child_key k = true ->
   x_mid g a (k, node_pv (tree_of_end from e)) = Some (end_spec S from e a).
@@ -625,139 +587,183 @@ Proof.
   rewrite (x_end_body_step S g from e a Hg Hok). reflexivity.
 Qed.
 
+(* an element owned by an inert property of the association (a model view ...) is skipped: its type is no association end *)
+Lemma x_mid_inert : forall g a k n, is_child_key k = true -> kind_child_ok KAssoc (node_type n) = true ->
+  x_mid g a (k, node_pv n) = Some a.
+Proof.
+  intros g a k n Hk H. destruct n as [id nm ty its tl]. cbn [node_type kind_child_ok] in H. apply negb_true_iff in H.
+  unfold x_mid. cbn [fst snd]. rewrite Hk, node_explicit. cbn [truthy]. rewrite x_head_type. cbn [bind]. rewrite H. reflexivity.
+Qed.
+
+Lemma x_numbered_in : forall vals n kv, In kv (numbered vals n) -> exists m v, kv = ("child_" ++ dec m, v) /\ In v vals.
+Proof.
+  induction vals as [|v r IH]; intros n kv H; [destruct H|].
+  cbn [numbered In] in H. destruct H as [H|H].
+  - exists n, v. split; [symmetry; exact H | left; reflexivity].
+  - destruct (IH _ _ H) as [m [w [E1 E2]]]. exists m, w. split; [exact E1 | right; exact E2].
+Qed.
+
 (* ---------------------------------------------------------------- the body dictionary of an association *)
 
-Lemma x_children_cons : forall ws f s r,
-  children_of (items_of ws f (s :: r)) =
-  (children_of (match s with SNoise k v => [IField ws k v] | STag t => match f t with Some it => [it] | None => [] end end)
-   ++ children_of (items_of ws f r))%list.
-Proof. intros. rewrite items_of_cons. unfold children_of. apply flat_map_app. Qed.
+(* the owned elements a slot of the association writes; what the reader makes of them *)
+Definition x_kidsf (x : sassoc) (s : slot) : list wnode :=
+  match s with
+  | STag t => match assoc_item x t with Some it => kids_of it | None => [] end
+  | SInert it => kids_of it
+  | SNoise _ _ => []
+  end.
+Definition x_step (S : sdiagram) (x : sassoc) (a : rassoc) (s : slot) : rassoc :=
+  match s with
+  | STag TFrom => end_spec S true (sx_from x) a
+  | STag TTo => end_spec S false (sx_to x) a
+  | _ => a
+  end.
 
-Lemma x_assoc_tag_kids : forall x t, t <> TFrom -> t <> TTo ->
-  children_of (match assoc_item x t with Some it => [it] | None => [] end) = [].
+Lemma x_mid_fold : forall S g x, g_names S g -> end_ok S true (sx_from x) = true -> end_ok S false (sx_to x) = true ->
+  nl_ok (sx_nl x) = true -> doc_ok (tabsn (sx_nl x) 1) (sx_doc x) = true ->
+  forall l n a, inerts_ok KAssoc l = true ->
+  foldM (x_mid g) (numbered (map node_pv (flat_map (x_kidsf x) l)) n) a = Some (fold_left (x_step S x) l a).
 Proof.
-  intros x t H1 H2. destruct t; try reflexivity; try congruence.
-  cbn [assoc_item]. unfold text_field. destruct (String.eqb (sx_doc x) ""); reflexivity.
+  intros S g x Hg Hf Ht Hnl Hdoc l. induction l as [|s r IH]; intros n a Hi; [reflexivity|].
+  unfold inerts_ok in Hi. cbn [forallb] in Hi. apply andb_true_iff in Hi. destruct Hi as [Hs Hr].
+  cbn [flat_map fold_left]. rewrite map_app, numbered_app, x_foldM_app.
+  assert (E : foldM (x_mid g) (numbered (map node_pv (x_kidsf x s)) n) a = Some (x_step S x a s)).
+  { destruct s as [k v|t|it].
+    - reflexivity.
+    - destruct t; cbn [x_kidsf assoc_item x_step]; try reflexivity.
+      + destruct (doc_field (tabsn (sx_nl x) 1) (sx_doc x)) as [it|] eqn:Ed; [|reflexivity].
+        destruct (doc_entries _ _ _ _ Hnl Hdoc Ed) as [_ [_ Hk]]. rewrite Hk. reflexivity.
+      + cbn [kids_of map numbered foldM]. rewrite (x_wrapper S g true (sx_from x) a _ Hg Hf (x_child_key _)). reflexivity.
+      + cbn [kids_of map numbered foldM]. rewrite (x_wrapper S g false (sx_to x) a _ Hg Ht (x_child_key _)). reflexivity.
+    - cbn [x_kidsf x_step]. destruct it as [ws k v|ws k o sep c ids|ws k o sep c ns|s|s]; try reflexivity.
+      cbn [kids_of]. apply x_foldM_skip. intros kv Hin s0.
+      destruct (x_numbered_in _ _ _ Hin) as [m [v [E1 E2]]]. subst kv.
+      apply in_map_iff in E2. destruct E2 as [nd [E3 E4]]. subst v.
+      apply x_mid_inert; [apply x_child_key|].
+      unfold inert_ok in Hs. apply andb_true_iff in Hs. destruct Hs as [_ Hc].
+      rewrite forallb_forall in Hc. exact (Hc _ E4). }
+  rewrite E. apply IH. exact Hr.
 Qed.
 
-Lemma x_kids_none : forall ws x l, has_tag TFrom l = false -> has_tag TTo l = false ->
-  children_of (items_of ws (assoc_item x) l) = [].
+Lemma x_step_other : forall S x a t, t <> TFrom -> t <> TTo -> x_step S x a (STag t) = a.
+Proof. intros S x a t H1 H2. destruct t; try reflexivity; congruence. Qed.
+
+Lemma x_fold_none : forall S x l a, has_tag TFrom l = false -> has_tag TTo l = false -> fold_left (x_step S x) l a = a.
 Proof.
-  intros ws x l. induction l as [|s r IH]; intros Hf Ht; [reflexivity|].
+  intros S x l. induction l as [|s r IH]; intros a Hf Ht; [reflexivity|].
   rewrite x_has_tag_cons in Hf, Ht. apply orb_false_iff in Hf. apply orb_false_iff in Ht. destruct Hf as [Hf1 Hf2]. destruct Ht as [Ht1 Ht2].
-  rewrite x_children_cons, (IH Hf2 Ht2), app_nil_r. destruct s as [k v|t]; [reflexivity|].
-  apply x_assoc_tag_kids; intro; subst t; discriminate.
+  cbn [fold_left]. rewrite (IH _ Hf2 Ht2). destruct s as [k v|t|it]; try reflexivity.
+  apply x_step_other; intro; subst t; discriminate.
 Qed.
 
-Lemma x_kids_to : forall ws x l seen, nodup_tags l seen = true -> has_tag TFrom l = false -> has_tag TTo l = true ->
-  children_of (items_of ws (assoc_item x) l) = [tree_of_end false (sx_to x)].
+Lemma x_fold_to : forall S x l seen a, nodup_tags l seen = true -> has_tag TFrom l = false -> has_tag TTo l = true ->
+  fold_left (x_step S x) l a = end_spec S false (sx_to x) a.
 Proof.
-  intros ws x l. induction l as [|s r IH]; intros seen Hn Hf Ht; [discriminate Ht|].
+  intros S x l. induction l as [|s r IH]; intros seen a Hn Hf Ht; [discriminate Ht|].
   rewrite x_has_tag_cons in Hf, Ht. apply orb_false_iff in Hf. destruct Hf as [Hf1 Hf2].
-  rewrite x_children_cons. destruct s as [k v|t].
-  - cbn [nodup_tags] in Hn. cbn [orb] in Ht. rewrite (IH seen Hn Hf2 Ht). reflexivity.
+  cbn [fold_left]. destruct s as [k v|t|it].
+  - cbn [nodup_tags] in Hn. cbn [orb] in Ht. exact (IH seen _ Hn Hf2 Ht).
   - cbn [nodup_tags] in Hn. apply andb_true_iff in Hn. destruct Hn as [Hn1 Hn2].
     destruct (tag_eqb t TTo) eqn:E.
     + apply tag_eqb_eq in E. subst t.
-      rewrite (x_kids_none ws x r Hf2 (x_nodup_seen r (TTo :: seen) TTo Hn2 eq_refl)). reflexivity.
-    + cbn [orb] in Ht. rewrite (IH (t :: seen) Hn2 Hf2 Ht).
-      rewrite x_assoc_tag_kids; [reflexivity| |]; intro; subst t; discriminate.
+      exact (x_fold_none S x r _ Hf2 (x_nodup_seen r (TTo :: seen) TTo Hn2 eq_refl)).
+    + cbn [orb] in Ht. rewrite x_step_other; [exact (IH (t :: seen) _ Hn2 Hf2 Ht)| |]; intro; subst t; discriminate.
+  - cbn [nodup_tags] in Hn. cbn [orb] in Ht. exact (IH seen _ Hn Hf2 Ht).
 Qed.
 
-Lemma x_kids_from : forall ws x l seen, nodup_tags l seen = true -> has_tag TFrom l = true -> has_tag TTo l = false ->
-  children_of (items_of ws (assoc_item x) l) = [tree_of_end true (sx_from x)].
+Lemma x_fold_from : forall S x l seen a, nodup_tags l seen = true -> has_tag TFrom l = true -> has_tag TTo l = false ->
+  fold_left (x_step S x) l a = end_spec S true (sx_from x) a.
 Proof.
-  intros ws x l. induction l as [|s r IH]; intros seen Hn Hf Ht; [discriminate Hf|].
+  intros S x l. induction l as [|s r IH]; intros seen a Hn Hf Ht; [discriminate Hf|].
   rewrite x_has_tag_cons in Hf, Ht. apply orb_false_iff in Ht. destruct Ht as [Ht1 Ht2].
-  rewrite x_children_cons. destruct s as [k v|t].
-  - cbn [nodup_tags] in Hn. cbn [orb] in Hf. rewrite (IH seen Hn Hf Ht2). reflexivity.
+  cbn [fold_left]. destruct s as [k v|t|it].
+  - cbn [nodup_tags] in Hn. cbn [orb] in Hf. exact (IH seen _ Hn Hf Ht2).
   - cbn [nodup_tags] in Hn. apply andb_true_iff in Hn. destruct Hn as [Hn1 Hn2].
     destruct (tag_eqb t TFrom) eqn:E.
     + apply tag_eqb_eq in E. subst t.
-      rewrite (x_kids_none ws x r (x_nodup_seen r (TFrom :: seen) TFrom Hn2 eq_refl) Ht2). reflexivity.
-    + cbn [orb] in Hf. rewrite (IH (t :: seen) Hn2 Hf Ht2).
-      rewrite x_assoc_tag_kids; [reflexivity| |]; intro; subst t; discriminate.
+      exact (x_fold_none S x r _ (x_nodup_seen r (TFrom :: seen) TFrom Hn2 eq_refl) Ht2).
+    + cbn [orb] in Hf. rewrite x_step_other; [exact (IH (t :: seen) _ Hn2 Hf Ht2)| |]; intro; subst t; discriminate.
+  - cbn [nodup_tags] in Hn. cbn [orb] in Hf. exact (IH seen _ Hn Hf Ht2).
 Qed.
 
-(* the two ends in the order of the layout *)
-Lemma x_kids : forall ws x l seen, nodup_tags l seen = true -> has_tag TFrom l = true -> has_tag TTo l = true ->
-  children_of (items_of ws (assoc_item x) l)
-  = if to_first l then [tree_of_end false (sx_to x); tree_of_end true (sx_from x)]
-    else [tree_of_end true (sx_from x); tree_of_end false (sx_to x)].
+(* the two ends are read in the order of the layout, whatever lies before, between and after them *)
+Lemma x_fold_both : forall S x l seen a, nodup_tags l seen = true -> has_tag TFrom l = true -> has_tag TTo l = true ->
+  fold_left (x_step S x) l a
+  = if to_first l then end_spec S true (sx_from x) (end_spec S false (sx_to x) a)
+    else end_spec S false (sx_to x) (end_spec S true (sx_from x) a).
 Proof.
-  intros ws x l. induction l as [|s r IH]; intros seen Hn Hf Ht; [discriminate Hf|].
-  rewrite x_has_tag_cons in Hf, Ht. rewrite x_children_cons. destruct s as [k v|t].
-  - cbn [nodup_tags] in Hn. cbn [orb] in Hf, Ht. cbn [to_first]. rewrite (IH seen Hn Hf Ht). reflexivity.
+  intros S x l. induction l as [|s r IH]; intros seen a Hn Hf Ht; [discriminate Hf|].
+  rewrite x_has_tag_cons in Hf, Ht. cbn [fold_left]. destruct s as [k v|t|it].
+  - cbn [nodup_tags] in Hn. cbn [orb] in Hf, Ht. cbn [to_first]. exact (IH seen _ Hn Hf Ht).
   - cbn [nodup_tags] in Hn. apply andb_true_iff in Hn. destruct Hn as [Hn1 Hn2].
     destruct (tag_eqb t TFrom) eqn:E1; [|destruct (tag_eqb t TTo) eqn:E2].
-    + apply tag_eqb_eq in E1. subst t. cbn [tag_eqb orb] in Ht. cbn [to_first].
-      rewrite (x_kids_to ws x r (TFrom :: seen) Hn2 (x_nodup_seen r (TFrom :: seen) TFrom Hn2 eq_refl) Ht). reflexivity.
-    + apply tag_eqb_eq in E2. subst t. cbn [tag_eqb orb] in Hf. cbn [to_first].
-      rewrite (x_kids_from ws x r (TTo :: seen) Hn2 Hf (x_nodup_seen r (TTo :: seen) TTo Hn2 eq_refl)). reflexivity.
-    + cbn [orb] in Hf, Ht. rewrite (IH (t :: seen) Hn2 Hf Ht).
-      rewrite x_assoc_tag_kids; [|intro; subst t; discriminate|intro; subst t; discriminate].
-      destruct t; try reflexivity; discriminate.
-Qed.
-
-Lemma x_assoc_simple : forall x, vtxt (sx_doc x) = true -> forall t it, assoc_item x t = Some it -> item_simple it = true.
-Proof.
-  intros x Hdoc t it H. destruct t; cbn [assoc_item] in H; try discriminate H.
-  - unfold text_field in H. destruct (String.eqb (sx_doc x) "") eqn:E; [discriminate H|]. injection H as H. subst it.
-    cbn [item_simple]. rewrite x_unq_q. pose proof (x_vtxt_kept _ Hdoc E) as Hk. unfold x_kept in Hk. exact Hk.
-  - injection H as H. subst it. reflexivity.
-  - injection H as H. subst it. reflexivity.
+    + apply tag_eqb_eq in E1. subst t. cbn [tag_eqb orb] in Ht. cbn [to_first x_step].
+      exact (x_fold_to S x r (TFrom :: seen) _ Hn2 (x_nodup_seen r (TFrom :: seen) TFrom Hn2 eq_refl) Ht).
+    + apply tag_eqb_eq in E2. subst t. cbn [tag_eqb orb] in Hf. cbn [to_first x_step].
+      exact (x_fold_from S x r (TTo :: seen) _ Hn2 Hf (x_nodup_seen r (TTo :: seen) TTo Hn2 eq_refl)).
+    + cbn [orb] in Hf, Ht. rewrite x_step_other; [|intro; subst t; discriminate|intro; subst t; discriminate].
+      rewrite (IH (t :: seen) _ Hn2 Hf Ht). destruct t; try reflexivity; discriminate.
+  - cbn [nodup_tags] in Hn. cbn [orb] in Hf, Ht. cbn [to_first]. exact (IH seen _ Hn Hf Ht).
 Qed.
 
 Definition x_assoc_entries (x : sassoc) (t : tag) : list (string * UmlBlob.pv) :=
-  match t with TDoc => x_text "documentation_plain" (sx_doc x) | _ => [] end.
+  match t with
+  | TDoc => match doc_field (tabsn (sx_nl x) 1) (sx_doc x) with Some _ => [("documentation_plain", PStr (doc_value (sx_doc x)))] | None => [] end
+  | _ => []
+  end.
 
-Lemma x_assoc_tag : forall x t, tag_entries (assoc_item x) t = x_assoc_entries x t.
+Lemma x_assoc_tag : forall x t, nl_ok (sx_nl x) = true -> doc_ok (tabsn (sx_nl x) 1) (sx_doc x) = true ->
+  tag_entries (assoc_item x) t = x_assoc_entries x t.
 Proof.
-  intros x t. unfold tag_entries. destruct t; cbn [assoc_item x_assoc_entries]; rewrite ?x_text_entries; reflexivity.
+  intros x t Hnl Hdoc. unfold tag_entries. destruct t; cbn [assoc_item x_assoc_entries]; try reflexivity.
+  destruct (doc_field (tabsn (sx_nl x) 1) (sx_doc x)) as [it|] eqn:Ed; [|reflexivity].
+  destruct (doc_entries _ _ _ _ Hnl Hdoc Ed) as [He _]. exact He.
 Qed.
 
 Lemma x_assoc_body : forall S x, assoc_ok S x = true ->
-  body_pv (items_of (tabs 1) (assoc_item x) (sx_layout x))
-  = PDict (entries (items_of (tabs 1) (assoc_item x) (sx_layout x))
-           ++ numbered (map node_pv (if to_first (sx_layout x) then [tree_of_end false (sx_to x); tree_of_end true (sx_from x)]
-                                     else [tree_of_end true (sx_from x); tree_of_end false (sx_to x)])) 0)%list.
+  body_pv (items_of (tabsn (sx_nl x) 1) (assoc_item x) (sx_layout x))
+  = PDict (entries (items_of (tabsn (sx_nl x) 1) (assoc_item x) (sx_layout x))
+           ++ numbered (map node_pv (flat_map (x_kidsf x) (sx_layout x))) 0)%list.
 Proof.
   intros S x H. unfold assoc_ok in H. x_split.
-  destruct (x_layout_parts _ _ ltac:(eassumption)) as [L1 [L2 [L3 [L4 L5]]]].
-  rewrite body_explicit; [| |rewrite entry_keys_ws; exact L2|rewrite entry_keys_ws; exact L3].
-  - rewrite (x_kids (tabs 1) x (sx_layout x) [] L1); [reflexivity| |].
-    + apply (L5 TFrom (IChildren (tabs 1) "from" "" "" "" [tree_of_end true (sx_from x)])). reflexivity.
-    + apply (L5 TTo (IChildren (tabs 1) "to" "" "" "" [tree_of_end false (sx_to x)])). reflexivity.
-  - apply x_items_simple; [exact L4|]. apply x_assoc_simple. assumption.
+  destruct (x_layout_parts _ _ ltac:(eassumption)) as [_ [L2 [L3 _]]].
+  rewrite body_explicit by (rewrite entry_keys_ws; assumption).
+  rewrite children_of_layout. reflexivity.
 Qed.
+
+Lemma x_in_entries_one : forall it kv, In kv (entries [it]) -> In (fst kv) (item_keys it).
+Proof. intros it kv H. rewrite <- entry_keys_one, <- entries_keys. apply in_map. exact H. Qed.
 
 (* the entries of the association body are no owned elements *)
-Lemma x_assoc_entries_skip : forall ws x l, x_noise_ok l = true ->
+Lemma x_assoc_entries_skip : forall x, nl_ok (sx_nl x) = true -> doc_ok (tabsn (sx_nl x) 1) (sx_doc x) = true ->
+  forall ws l, x_noise_ok l = true -> inerts_ok KAssoc l = true ->
   forall kv, In kv (entries (items_of ws (assoc_item x) l)) -> is_child_key (fst kv) = false.
 Proof.
-  intros ws x l. induction l as [|s r IH]; intros Hn kv Hin; [destruct Hin|].
+  intros x Hnl Hdoc ws l. induction l as [|s r IH]; intros Hn Hi kv Hin; [destruct Hin|].
   unfold x_noise_ok in Hn. cbn [forallb] in Hn. apply andb_true_iff in Hn. destruct Hn as [Hs Hr].
-  rewrite items_of_cons, entries_app in Hin. apply in_app_or in Hin. destruct Hin as [Hin|Hin]; [|exact (IH Hr kv Hin)].
-  destruct s as [k v|t].
-  - destruct Hin as [Hin|[]]. subst kv. cbn [fst]. apply andb_true_iff in Hs. destruct Hs as [Hk _].
-    apply x_noise_not_child. exact Hk.
-  - rewrite tag_item_entries, x_assoc_tag in Hin. destruct t; cbn [x_assoc_entries] in Hin; try (destruct Hin; fail).
-    unfold x_text in Hin. destruct (String.eqb (sx_doc x) ""); [destruct Hin|]. destruct Hin as [Hin|[]]. subst kv. reflexivity.
+  unfold inerts_ok in Hi. cbn [forallb] in Hi. apply andb_true_iff in Hi. destruct Hi as [Hi1 Hi2].
+  rewrite items_of_cons, entries_app in Hin. apply in_app_or in Hin. destruct Hin as [Hin|Hin]; [|exact (IH Hr Hi2 kv Hin)].
+  destruct s as [k v|t|it].
+  - apply x_in_entries_one in Hin. cbn [item_keys] in Hin.
+    destruct (String.eqb (py_strip (remove_char "," (unq v))) ""); [destruct Hin|]. destruct Hin as [Hin|[]]. rewrite <- Hin.
+    apply andb_true_iff in Hs. destruct Hs as [Hk _]. apply x_noise_not_child. exact Hk.
+  - rewrite tag_item_entries, (x_assoc_tag x t Hnl Hdoc) in Hin. destruct t; cbn [x_assoc_entries] in Hin; try (destruct Hin; fail).
+    destruct (doc_field (tabsn (sx_nl x) 1) (sx_doc x)); [|destruct Hin]. destruct Hin as [Hin|[]]. subst kv. reflexivity.
+  - apply x_in_entries_one in Hin. unfold inert_ok in Hi1. apply andb_true_iff in Hi1. destruct Hi1 as [Hi1 _].
+    apply andb_true_iff in Hi1. destruct Hi1 as [_ Hi1]. rewrite forallb_forall in Hi1. specialize (Hi1 _ Hin).
+    apply andb_true_iff in Hi1. destruct Hi1 as [_ Hp]. cbn [kind_parts forallb] in Hp. rewrite andb_true_r in Hp.
+    unfold is_child_key. apply negb_true_iff. exact Hp.
 Qed.
 
-Ltac x_assoc_other :=
-  let t := fresh "t" in let Ht := fresh "Ht" in
-  intros t Ht; rewrite x_assoc_tag; destruct t; try (exfalso; apply Ht; reflexivity); reflexivity.
-
 Lemma x_doc_lookup : forall S x vals, assoc_ok S x = true ->
-  lookup String.eqb "documentation_plain" (entries (items_of (tabs 1) (assoc_item x) (sx_layout x)) ++ numbered vals 0)%list
-  = if String.eqb (sx_doc x) "" then None else Some (PStr (sx_doc x)).
+  lookup String.eqb "documentation_plain" (entries (items_of (tabsn (sx_nl x) 1) (assoc_item x) (sx_layout x)) ++ numbered vals 0)%list
+  = match doc_field (tabsn (sx_nl x) 1) (sx_doc x) with Some _ => Some (PStr (doc_value (sx_doc x))) | None => None end.
 Proof.
   intros S x vals H. unfold assoc_ok in H. x_split.
-  rewrite lookup_app, (x_lookup _ _ _ "documentation_plain" TDoc); [|assumption|reflexivity|x_assoc_other].
-  rewrite x_assoc_tag. cbn [x_assoc_entries]. unfold x_text. destruct (String.eqb (sx_doc x) "").
-  - cbn [lookup]. apply lookup_numbered_none. reflexivity.
-  - reflexivity.
+  rewrite (x_lookup KAssoc _ _ _ "documentation_plain" TDoc); [|assumption|assumption|reflexivity|reflexivity|reflexivity|].
+  - rewrite x_assoc_tag by assumption. cbn [x_assoc_entries].
+    destruct (doc_field (tabsn (sx_nl x) 1) (sx_doc x)); reflexivity.
+  - intros t Ht. rewrite x_assoc_tag by assumption. destruct t; try (exfalso; apply Ht; reflexivity); reflexivity.
 Qed.
 
 (* ---------------------------------------------------------------- substrings: pieces of a split, stripped texts *)
@@ -858,7 +864,7 @@ Qed.
 Theorem build_assoc : goal_assoc.
 Proof.
   intros S g P v x Hg Hok HP Hid Hname. pose proof Hok as Hok'. unfold assoc_ok in Hok'. x_split.
-  destruct (x_layout_parts _ _ ltac:(eassumption)) as [_ [_ [_ [L4 _]]]].
+  destruct (x_layout_parts _ _ ltac:(eassumption)) as [L1 [_ [_ [L4 L5]]]].
   assert (Hnm : contains "documentation_plain" (name_text (sx_name x)) = false).
   { match goal with H : match sx_name x with Some _ => _ | None => _ end = true |- _ => revert H end.
     destruct (sx_name x) as [n|]; intro Hm; [|reflexivity]. x_split. apply negb_true_iff. assumption. }
@@ -872,29 +878,24 @@ Proof.
   rewrite x_top_str; [|reflexivity|apply x_part_avoid; [exact Hnm|reflexivity|reflexivity]]. cbn [bind].
   rewrite x_top_str; [|reflexivity|apply x_part_avoid; [exact Hnm|reflexivity|reflexivity]]. cbn [bind].
   set (a0 := assoc0 (sx_id x) (ostr (sx_name x))).
-  set (Ents := entries (items_of (tabs 1) (assoc_item x) (sx_layout x))).
-  assert (Hdoc : (if has "documentation_plain" (PDict (Ents ++ numbered (map node_pv
-                       (if to_first (sx_layout x) then [tree_of_end false (sx_to x); tree_of_end true (sx_from x)]
-                        else [tree_of_end true (sx_from x); tree_of_end false (sx_to x)])) 0)%list)
-                  then c <- sidx "documentation_plain" (PDict (Ents ++ numbered (map node_pv
-                       (if to_first (sx_layout x) then [tree_of_end false (sx_to x); tree_of_end true (sx_from x)]
-                        else [tree_of_end true (sx_from x); tree_of_end false (sx_to x)])) 0)%list) ;; Some (set_comment a0 c)
-                  else Some a0) = Some (set_comment a0 (sx_doc x))).
+  set (Ents := entries (items_of (tabsn (sx_nl x) 1) (assoc_item x) (sx_layout x))).
+  set (vals := map node_pv (flat_map (x_kidsf x) (sx_layout x))).
+  assert (Hdoc : (if has "documentation_plain" (PDict (Ents ++ numbered vals 0)%list)
+                  then c <- sidx "documentation_plain" (PDict (Ents ++ numbered vals 0)%list) ;; Some (set_comment a0 c)
+                  else Some a0) = Some (set_comment a0 (doc_value (sx_doc x)))).
   { unfold has, sidx, idx. rewrite mem_lookup. unfold Ents. rewrite (x_doc_lookup S x _ Hok).
-    destruct (String.eqb (sx_doc x) "") eqn:Ed; [|reflexivity].
-    apply String.eqb_eq in Ed. rewrite Ed. reflexivity. }
+    destruct (doc_field (tabsn (sx_nl x) 1) (sx_doc x)) as [it|] eqn:Ed; [reflexivity|].
+    rewrite (doc_absent _ _ Ed). reflexivity. }
   unfold x_top. cbn [fst snd]. rewrite Hdoc. cbn [bind]. change (is_child_key "child_0") with true. cbv iota.
   cbn [items bind]. rewrite x_foldM_app.
   rewrite x_foldM_skip.
-  2:{ intros kv Hin s. unfold x_mid. unfold Ents in Hin. rewrite (x_assoc_entries_skip _ _ _ L4 kv Hin). reflexivity. }
-  unfold rassoc_of. fold a0.
-  destruct (to_first (sx_layout x)).
-  - cbn [map numbered foldM].
-    rewrite (x_wrapper S g false (sx_to x) _ _ Hg) by (assumption || reflexivity). cbn [bind].
-    rewrite (x_wrapper S g true (sx_from x) _ _ Hg) by (assumption || reflexivity). reflexivity.
-  - cbn [map numbered foldM].
-    rewrite (x_wrapper S g true (sx_from x) _ _ Hg) by (assumption || reflexivity). cbn [bind].
-    rewrite (x_wrapper S g false (sx_to x) _ _ Hg) by (assumption || reflexivity). reflexivity.
+  2:{ intros kv Hin s. unfold x_mid. unfold Ents in Hin.
+      rewrite (x_assoc_entries_skip x ltac:(assumption) ltac:(assumption) _ _ L4 ltac:(assumption) kv Hin). reflexivity. }
+  unfold vals. rewrite (x_mid_fold S g x Hg) by assumption.
+  rewrite (x_fold_both S x (sx_layout x) [] _ L1).
+  - reflexivity.
+  - apply (L5 TFrom (IChildren (tabsn (sx_nl x) 1) "from" "" "" "" [tree_of_end true (sx_from x)])). reflexivity.
+  - apply (L5 TTo (IChildren (tabsn (sx_nl x) 1) "to" "" "" "" [tree_of_end false (sx_to x)])). reflexivity.
 Qed.
 
 Print Assumptions build_assoc.
